@@ -54,10 +54,39 @@ def judgeFinal (s : Sizes) (l : Live) : Option String :=
   else if l.calls + l.pings + l.writes ≠ 0 then some "exchange-not-ended"
   else none
 
-/-- the whole history: every point within bounds, the final point empty -/
-def judge (points : List (Sizes × Live)) (final : Sizes × Live) : Option String :=
-  match points.findSome? (fun p => judgePoint p.1 p.2) with
+def idle (l : Live) : Bool := l.calls + l.pings + l.writes + l.liveObs == 0
+
+/-- "retains nothing for them" also forbids *re*-creating state for an exchange that has ended: when nothing is live
+    before and after the connection processes a message of the peer that belongs to one of our (ended) exchanges — a
+    late or duplicated response, block, acknowledgement, reset or pong —, no continuation, buffer, lock, limiter or
+    observation entry may appear.  (The reply cache is exempt: a confirmable message of the peer is an exchange of its
+    own, whose cached reply lives for the exchange lifetime.) -/
+def judgeLate (before after : Sizes × Live) : Option String :=
+  if !(idle before.2 && idle after.2) then none
+  else if after.1.tok > before.1.tok then some "late-insert:token-continuations"
+  else if after.1.mid > before.1.mid then some "late-insert:message-id-continuations"
+  else if after.1.lock > before.1.lock then some "late-insert:per-id-locks"
+  else if after.1.bwR > before.1.bwR then some "late-insert:blockwise-reassembly"
+  else if after.1.bwS > before.1.bwS then some "late-insert:blockwise-send-buffers"
+  else if after.1.obs > before.1.obs then some "late-insert:observations"
+  else if after.1.lim > before.1.lim then some "late-insert:limiter-entries"
+  else none
+
+/-- consecutive points; `ours` = the op between them was a peer message for one of our exchanges -/
+def judgeLateAll : (Sizes × Live) → List (Sizes × Live × Bool) → Option String
+  | _, [] => none
+  | prev, (s, l, ours) :: rest =>
+    match (if ours then judgeLate prev (s, l) else none) with
+    | some c => some c
+    | none => judgeLateAll (s, l) rest
+
+/-- the whole history: every point within bounds, no state re-created for an ended exchange, the final point empty -/
+def judge (points : List (Sizes × Live × Bool)) (final : Sizes × Live) : Option String :=
+  match points.findSome? (fun p => judgePoint p.1 p.2.1) with
   | some c => some c
-  | none => judgeFinal final.1 final.2
+  | none =>
+    match judgeLateAll (⟨0, 0, 0, 0, 0, 0, 0, 0⟩, ⟨0, 0, 0, 0⟩) points with
+    | some c => some c
+    | none => judgeFinal final.1 final.2
 
 end CoapVerif.Spec.Quiescence
